@@ -168,8 +168,13 @@ impl IpcListener {
               Ok(_) => {}
               Err(broadcast::error::RecvError::Lagged(n)) => {
                 tracing::warn!(handle = listener_cmd_loop_handle, uri = %endpoint_uri_clone_log, skipped = n, "System event bus lagged for IPC Listener command loop!");
-                if let Some(h) = &listener_abort_handle { h.abort(); }
-                final_error_for_actor_stopping = Some(ZmqError::Internal("Listener event bus lagged (IPC)".into())); break;
+                // keep listening unless a close / term was among the skipped events
+                if !self.socket_logic.core().is_running()
+                  || self.context.inner().shutdown_initiated.load(std::sync::atomic::Ordering::Acquire)
+                {
+                  if let Some(h) = &listener_abort_handle { h.abort(); }
+                  break;
+                }
               }
               Err(broadcast::error::RecvError::Closed) => {
                 tracing::error!(handle = listener_cmd_loop_handle, uri = %endpoint_uri_clone_log, "System event bus closed unexpectedly for IPC Listener command loop!");
